@@ -110,5 +110,19 @@ struct wv_pl_t
 #define WV_B_SAME_AS_ENTRY (wv_b->now == __CPROVER_loop_entry(wv_b->now) && wv_b->total == __CPROVER_loop_entry(wv_b->total) && \
   wv_b->tail == __CPROVER_loop_entry(wv_b->tail) && wv_b->isfinal == __CPROVER_loop_entry(wv_b->isfinal))
 #define WV_WORKER_INV ((wv_c->state == READY || wv_c->state == INV) && WV_B_OK(wv_b) && (wv_c->state == INV ==> wv_b->now == wv_b->total) && !wv_c->lock.held)
-#define WV_B_OK(b) ((b)->now <= (b)->total && (b)->total <= iobuffer__BUF_SZ && (b)->tail < 16)
+#define WV_B_OK(ib) ((ib)->now <= (ib)->total && (ib)->total <= iobuffer__BUF_SZ && (ib)->tail < 16)
+/* --- turn_iter: live_num counts the buffers that are not retired; cyclic arithmetic without division (P-H) */
+unsigned wv_steps;
+#define WV_LIVE1(g, j) (((j) < (g)->size && (g)->ctrl[j].state != INV) ? 1 : 0)
+#define WV_COUNT_LIVE(g) (WV_LIVE1(g, 0) + WV_LIVE1(g, 1) + WV_LIVE1(g, 2) + WV_LIVE1(g, 3) + WV_LIVE1(g, 4) + WV_LIVE1(g, 5) + WV_LIVE1(g, 6) + WV_LIVE1(g, 7) + \
+  WV_LIVE1(g, 8) + WV_LIVE1(g, 9) + WV_LIVE1(g, 10) + WV_LIVE1(g, 11) + WV_LIVE1(g, 12) + WV_LIVE1(g, 13) + WV_LIVE1(g, 14) + WV_LIVE1(g, 15))
+#define WV_CD(n, a, x) ((unsigned)((x) >= (a) ? (x) - (a) : (x) + (n) - (a)))            /* cyclic distance from a to x */
+#define WV_ADDM(n, a, k) ((unsigned)((a) + (k) >= (n) ? (a) + (k) - (n) : (a) + (k)))     /* (a + k) mod n for k <= n */
+/* the buffers at cyclic distance 1..k from e are all retired */
+#define WV_INVB1(g, e, k, x) (((x) < (g)->size && WV_CD((g)->size, e, x) >= 1 && WV_CD((g)->size, e, x) <= (k)) ==> (g)->ctrl[x].state == INV)
+#define WV_INVB_SELF(g, e, k) (((k) >= (g)->size) ==> (g)->ctrl[e].state == INV)
+#define WV_ALL_INV_BETWEEN(g, e, k) (WV_INVB1(g, e, k, 0) && WV_INVB1(g, e, k, 1) && WV_INVB1(g, e, k, 2) && WV_INVB1(g, e, k, 3) && WV_INVB1(g, e, k, 4) && \
+  WV_INVB1(g, e, k, 5) && WV_INVB1(g, e, k, 6) && WV_INVB1(g, e, k, 7) && WV_INVB1(g, e, k, 8) && WV_INVB1(g, e, k, 9) && WV_INVB1(g, e, k, 10) && \
+  WV_INVB1(g, e, k, 11) && WV_INVB1(g, e, k, 12) && WV_INVB1(g, e, k, 13) && WV_INVB1(g, e, k, 14) && WV_INVB1(g, e, k, 15) && WV_INVB_SELF(g, e, k) && \
+  (g)->turn == WV_ADDM((g)->size, e, (k) >= (g)->size ? 0 : (k)))
 #endif
